@@ -58,12 +58,9 @@ func (k Keeper) AddAllowedBidders(ctx context.Context, auctionId uint64, allowed
 		return sdkerrors.Wrapf(err, "auction %d is not found", auctionId)
 	}
 
-	// Call hook before adding allowed bidders for the auction
-	if err := k.BeforeAllowedBiddersAdded(ctx, allowedBidders); err != nil {
-		return err
-	}
-
-	// Store new allowed bidders
+	// The entries belong to the auction they are stored under, whatever id the caller put in the records,
+	// and carry the canonical spelling of the bidder address (it is matched against bids as a string)
+	entries := make([]types.AllowedBidder, 0, len(allowedBidders))
 	for _, ab := range allowedBidders {
 		if err := ab.Validate(); err != nil {
 			return err
@@ -76,10 +73,22 @@ func (k Keeper) AddAllowedBidders(ctx context.Context, auctionId uint64, allowed
 		if err != nil {
 			return err
 		}
-		// The entry belongs to the auction it is stored under, whatever id the caller put in the record,
-		// and carries the canonical spelling of the bidder address (it is matched against bids as a string)
 		ab.AuctionId = auctionId
 		ab.Bidder = bidder.String()
+		entries = append(entries, ab)
+	}
+
+	// Call hook before adding allowed bidders for the auction, with the entries as they are stored
+	if err := k.BeforeAllowedBiddersAdded(ctx, entries); err != nil {
+		return err
+	}
+
+	// Store new allowed bidders
+	for _, ab := range entries {
+		bidder, err := ab.GetBidder()
+		if err != nil {
+			return err
+		}
 		if err := k.AllowedBidder.Set(ctx, collections.Join(auctionId, bidder), ab); err != nil {
 			return err
 		}
